@@ -66,7 +66,7 @@ def has_polygon(s):
 
 def gen_cases(seed, tier):
     rng = np.random.default_rng([seed, 17])
-    n = 280 if tier == "quick" else 2500
+    n = 280 if tier == "quick" else 8000
     depth = 2 if tier == "quick" else 3
     cases = []
     tries = 0
